@@ -234,9 +234,11 @@ def r16_5(chk, repo):
                "one output entry is appended per input entry, in order")
 
 
-def r16_6(chk, repo):
+def r16_6(chk, repo, rule="R16.6", only=None):
     impls = [("esutil.numpy_util.to_native", "array[fname]"), ("esutil.recfile.Util.to_native_inplace", "array[fname].dtype")]
     for q, arg in impls:
+        if only is not None and q != only:
+            continue
         fi = repo.func(q)
         chk.analysed_unit(q)
         # swap decision = machine_little xor data_little
@@ -246,20 +248,20 @@ def r16_6(chk, repo):
             tt = norm(t).replace("(", "").replace(")", "")
             ok = ok or tt in ("machine_little and not data_little or not machine_little and data_little",
                               "machine_little != data_little", "data_little != machine_little")
-        chk.ob("R16.6", q + "::swap-iff-host-xor-data", ok, fi.where(), "swap exactly when host order and data order differ (%s)" % [norm(c) for c in conds])
+        chk.ob(rule, q + "::swap-iff-host-xor-data", ok, fi.where(), "swap exactly when host order and data order differ (%s)" % [norm(c) for c in conds])
         # data_little starts False and is only set True on a positive is_little_endian
         sets = [(norm(x.targets[0]), norm(x.value)) for x in walk_no_nested(fi.node) if isinstance(x, ast.Assign) and norm(x.targets[0]) == "data_little"]
         ok = ("data_little", "False") in sets and set(v for _, v in sets) <= {"False", "True", "is_little_endian(array)", "is_little_endian(array.dtype)"}
-        chk.ob("R16.6", q + "::data-order-flag", ok, fi.where(), "data_little defaults to False and is set from is_little_endian only (%s)" % sets)
+        chk.ob(rule, q + "::data-order-flag", ok, fi.where(), "data_little defaults to False and is set from is_little_endian only (%s)" % sets)
         ml = _const_eval_flag(fi, "machine_little")
-        chk.ob("R16.6", q + "::host-order-flag", ml == {True: True, False: False}, fi.where(), "machine_little mirrors numpy.little_endian (%s)" % ml)
+        chk.ob(rule, q + "::host-order-flag", ml == {True: True, False: False}, fi.where(), "machine_little mirrors numpy.little_endian (%s)" % ml)
     # recfile's in-place converter: swap in place and flip dtype together
     fi = repo.func("esutil.recfile.Util.to_native_inplace")
     calls = [x for x in walk_no_nested(fi.node) if isinstance(x, ast.Call) and call_name(x) == "byteswap"]
     ok = len(calls) == 1 and calls[0].args and norm(calls[0].args[0]) == "True"
     flips = [x for x in walk_no_nested(fi.node) if isinstance(x, ast.Assign) and isinstance(x.targets[0], ast.Attribute) and x.targets[0].attr == "dtype"]
     okf = len(flips) == 1 and isinstance(flips[0].value, ast.Call) and call_name(flips[0].value) == "newbyteorder"
-    chk.ob("R16.6", fi.qualname + "::swap-and-flip-paired", ok and okf, fi.where(), "in-place swap and dtype flip occur together in the same branch")
+    chk.ob(rule, fi.qualname + "::swap-and-flip-paired", ok and okf, fi.where(), "in-place swap and dtype flip occur together in the same branch")
 
 
 def _const_eval_flag(fi, var):
